@@ -1,16 +1,26 @@
 /* C18 -- the catalogue compiler: ev_spec.c (ev_spec_compile, parse_signature, parse_args,
  * parse_arg, parse_type) and model_evspec.c (model_evspec_init, model_evspec_find).
  *
- * BOUNDED: signature strings of at most C18_SIGN bytes including the terminator
- * (the longest signature in /repo is 33 bytes; the real catalogue is covered completely by the
- * native groups: catalogue_<model>.evlist_wellformed).  parse_arg is proved for every
- * number of arguments already parsed (0..MAX_ARGS), i.e. the MAX_ARGS guard and the offset
- * accumulation do not depend on the bound.
+ * BOUNDED and COMPOSITIONAL.  A fully symbolic signature string run through the real
+ * tokenising code does not finish (plain CBMC, 16-byte signature, no DFCC: > 5 min in symbolic
+ * execution alone: every parse_arg writes at a symbolic offset of the 1.7 KB definition).  So:
+ *   parse_arg_n<k>   the real parse_arg on an arbitrary token (<= 11 chars) appended to a
+ *                    definition that already holds k arguments; concrete strtok_r model;
+ *                    k = 0, 15, 16 with the strong contract (type names <-> sizes, MAX_ARGS guard),
+ *                    k = 0..3 with the self-contained contract cr_parse_arg used below;
+ *   ev_spec_compile  the real ev_spec_compile / parse_signature / parse_args on an arbitrary
+ *                    signature (<= C18_SIGN bytes) where parse_arg is replaced by cr_parse_arg
+ *                    and strtok_r is ABSTRACT (yields at most 4 tokens, anywhere): MCV, jumbo
+ *                    flag, cumulative offsets, payload size, refused classes.
+ *   model_evspec_init  see below.
+ * The real catalogue (every signature of the eight model_evlist[]) is covered completely by
+ * the native groups (catalogue_<model>.evlist_wellformed); arbitrary signatures longer than
+ * the bound or with more than 4 arguments are NOT decided.
  *
  * Trusted stubs (libc, outside the unit):
- *   strtok_r   POSIX.1-2008 hand model (CBMC ships no body)
- *   snprintf   only the two "%s" uses of the compile path: copies the string, returns its
- *              length (C99 7.19.6.5); any other format: as the prelude (contents dropped)
+ *   strtok_r   POSIX.1-2008 hand model (CBMC ships no body) / abstract variant
+ *   snprintf   the two "%s" uses of the compile path: returns strlen (C99 7.19.6.5); the
+ *              256-byte working copy is copied, an argument name gets arbitrary characters
  *   isgraph    C locale: 0x21..0x7e
  */
 #include "prelude.h"
@@ -25,41 +35,69 @@
 #undef isalnum
 #define isalnum(c) (((c) >= '0' && (c) <= '9') || ((c) >= 'a' && (c) <= 'z') || ((c) >= 'A' && (c) <= 'Z'))
 
-static int c18_is_delim(char c, const char *delim)
-{
-	/* the unit uses " " and ",)" only */
-	return c != '\0' && (c == delim[0] || (delim[0] != '\0' && c == delim[1]));
-}
+char *m_tok_base;
+unsigned m_tok_n;           /* tokens handed out (abstract variant) */
+#ifdef C18_ABSTRACT_TOK
+/* strtok_r, abstract: at most C18_MAXTOK tokens; a token is some place of the string being split.
+ * Nothing in the groups that use this variant reads a token (parse_arg is replaced by its
+ * contract), so "which token" is left completely open: sound for every tokenisation. */
+#define C18_MAXTOK 4
 char *strtok_r(char *s, const char *delim, char **save)
 {
-	__CPROVER_assert(delim[0] != '\0' && (delim[1] == '\0' || delim[2] == '\0'), "strtok_r model: one or two delimiters");
-	if (s == NULL)
-		s = *save;
-	/* skip leading delimiters */
-	for (int k = 0; k < C18_SIGN; k++) {
-		if (!c18_is_delim(*s, delim))
-			break;
-		s++;
+	(void) delim;
+	if (s != NULL) {
+		m_tok_base = s;
+		m_tok_n = 0;
 	}
-	if (*s == '\0') {
-		*save = s;
+	*save = m_tok_base;
+	if (m_tok_n >= C18_MAXTOK || nondet_bool())
 		return NULL;
-	}
-	char *tok = s;
-	for (int k = 0; k < C18_SIGN; k++) {
-		if (*s == '\0' || c18_is_delim(*s, delim))
-			break;
-		s++;
-	}
-	if (*s == '\0') {
-		*save = s;
-		return tok;
-	}
-	*s = '\0';
-	*save = s + 1;
-	return tok;
+	m_tok_n++;
+	return m_tok_base;
 }
+#else
+/* strtok_r, POSIX.1-2008.  Written over CONSTANT indices relative to the start of the string being
+ * split (a pointer walked through a symbolic string makes every access a symbolic-offset access).
+ * m_tok_base is the first string handed to strtok_r; the model asserts that later calls stay in it. */
+char *strtok_r(char *s, const char *delim, char **save)
+{
+	char d0 = delim[0];
+	char d1 = (d0 == '\0') ? '\0' : delim[1];
+	__CPROVER_assert(d0 != '\0' && (d1 == '\0' || delim[2] == '\0'), "strtok_r model: one or two delimiters");
+	if (s != NULL && (m_tok_base == NULL || !__CPROVER_same_object(s, m_tok_base)))
+		m_tok_base = s;
+	const char *from = (s != NULL) ? s : *save;
+	__CPROVER_assert(__CPROVER_same_object(from, m_tok_base) && from >= m_tok_base, "strtok_r model: continues inside the string it started");
+	long pos = from - m_tok_base;
+	long start = -1;
+	for (long k = 0; k < C18_SIGN; k++) {
+		if (k < pos)
+			continue;
+		char c = m_tok_base[k];
+		if (c == '\0') {
+			/* end of the string: the last token, or none */
+			*save = m_tok_base + k;
+			return start < 0 ? NULL : m_tok_base + start;
+		}
+		int isdelim = (c == d0 || (d1 != '\0' && c == d1));
+		if (start < 0) {
+			if (!isdelim)
+				start = k;          /* leading delimiters are skipped */
+		} else if (isdelim) {
+			m_tok_base[k] = '\0';      /* the token ends here */
+			*save = m_tok_base + k + 1;
+			return m_tok_base + start;
+		}
+	}
+	__CPROVER_assert(0, "strtok_r model: string ends within the bound");
+	return NULL;
+}
+#endif
 
+/* snprintf(s, n, "%s", arg): returns strlen(arg) (C99 7.19.6.5).  The 256-byte working copy of the
+ * signature (n == 256) is copied faithfully; for the 64-byte argument name only the terminator is placed
+ * and the characters before it are arbitrary (no clause of these groups reads a name; copying them would be
+ * a dozen writes at a symbolic offset of the 1.7 KB definition per argument). */
 static int c18_snprintf(char *s, size_t n, const char *fmt, const char *arg)
 {
 	if (fmt[0] == '%' && fmt[1] == 's' && fmt[2] == '\0') {
@@ -72,10 +110,14 @@ static int c18_snprintf(char *s, size_t n, const char *fmt, const char *arg)
 		__CPROVER_assert(arg[len] == '\0', "snprintf model: string within the bound");
 		if (n > 0) {
 			size_t m = len < n - 1 ? len : n - 1;
-			for (size_t i = 0; i < C18_SIGN; i++) {
-				if (i >= m)
-					break;
-				s[i] = arg[i];
+			if (n == 256) {
+				for (size_t i = 0; i < C18_SIGN; i++) {
+					if (i >= m)
+						break;
+					s[i] = arg[i];
+				}
+			} else if (m > 0) {
+				__CPROVER_havoc_slice(s, m);
 			}
 			s[m] = '\0';
 		}
@@ -91,6 +133,7 @@ static int c18_snprintf(char *s, size_t n, const char *fmt, const char *arg)
 #include "model.h"
 
 #define RET __CPROVER_return_value
+#define OLD(e) __CPROVER_old(e)
 #define IMPLIES(a, b) (!(a) || (b))
 
 /* what the type table must say (C18 statement: "payload of the declared shape") */
@@ -98,21 +141,38 @@ static int c18_snprintf(char *s, size_t n, const char *fmt, const char *arg)
 	(t) == U64 || (t) == I64 ? 8u : 0u)
 
 /* ====================================================================================
- * parse_arg: one "type name" token appended to a definition with ANY number of arguments
+ * parse_arg: one "type name" token appended to a definition that holds C18_NARGS arguments
+ * (fixed per group: a symbolic index into spec->args[] does not finish)
  * ==================================================================================== */
 #define ARGN 12
+#ifndef C18_NARGS
+#define C18_NARGS 0
+#endif
+_Static_assert(C18_NARGS >= 0 && C18_NARGS <= MAX_ARGS, "definition with 0..MAX_ARGS arguments");
+
+/* --- (a) strong, enforce-only contract --- */
 int g_n0; unsigned long g_ps0; int g_j;   /* pre-state, and an arbitrary earlier argument */
 unsigned long g_joff, g_jsize;
 int w_nargs; char w_arg[ARGN];
-WITNESS(parse_arg);
+/* token shapes "tt n..." and "ttt n..." (type of two / three characters, one blank, a name) -- on the pre-state copy */
+#define A(i) (w_arg[i])
+#define NODELIM(c) ((c) != ' ' && (c) != '\0')
+#define SHAPE2 (NODELIM(A(0)) && NODELIM(A(1)) && A(2) == ' ' && NODELIM(A(3)))
+#define SHAPE3 (NODELIM(A(0)) && NODELIM(A(1)) && NODELIM(A(2)) && A(3) == ' ' && NODELIM(A(4)))
+#define IS2(a, b) (SHAPE2 && A(0) == (a) && A(1) == (b))
+#define IS3(a, b, c) (SHAPE3 && A(0) == (a) && A(1) == (b) && A(2) == (c))
+#define KNOWN_TYPE (IS2('u', '8') || IS2('i', '8') || IS3('u', '1', '6') || IS3('u', '3', '2') || IS3('u', '6', '4') || \
+	IS3('i', '1', '6') || IS3('i', '3', '2') || IS3('i', '6', '4') || IS3('s', 't', 'r'))
+#define EXPECT_TYPE (IS2('u', '8') ? U8 : IS2('i', '8') ? I8 : IS3('u', '1', '6') ? U16 : IS3('u', '3', '2') ? U32 : IS3('u', '6', '4') ? U64 : \
+	IS3('i', '1', '6') ? I16 : IS3('i', '3', '2') ? I32 : IS3('i', '6', '4') ? I64 : STR)
 int c_parse_arg(struct ev_spec *spec, char *arg)
 __CPROVER_requires(__CPROVER_is_fresh(spec, sizeof(*spec)) && __CPROVER_is_fresh(arg, ARGN) && arg[ARGN - 1] == '\0')
-__CPROVER_requires(spec->nargs >= 0 && spec->nargs <= MAX_ARGS && spec->payload_size <= 4 + 8 * MAX_ARGS && DIAG_PRE)
+__CPROVER_requires(spec->nargs == C18_NARGS && spec->payload_size <= 4 + 8 * MAX_ARGS && DIAG_PRE && m_tok_base == NULL)
 __CPROVER_requires(g_n0 == spec->nargs && g_ps0 == spec->payload_size)
 __CPROVER_requires(g_j >= 0 && g_j < MAX_ARGS && g_joff == spec->args[g_j].offset && g_jsize == spec->args[g_j].size)
-__CPROVER_requires(WBIND(parse_arg, w_nargs == spec->nargs && w_arg[0] == arg[0] && w_arg[1] == arg[1] && w_arg[2] == arg[2] && w_arg[3] == arg[3] &&
-	w_arg[4] == arg[4] && w_arg[5] == arg[5] && w_arg[6] == arg[6] && w_arg[7] == arg[7]))
-__CPROVER_assigns(__CPROVER_object_whole(spec), __CPROVER_object_whole(arg), DIAG_FRAME)
+__CPROVER_requires(w_nargs == spec->nargs && w_arg[0] == arg[0] && w_arg[1] == arg[1] && w_arg[2] == arg[2] && w_arg[3] == arg[3] &&
+	w_arg[4] == arg[4] && w_arg[5] == arg[5] && w_arg[6] == arg[6] && w_arg[7] == arg[7])
+__CPROVER_assigns(__CPROVER_object_whole(spec), __CPROVER_object_whole(arg), DIAG_FRAME, m_tok_base)
 __CPROVER_ensures(RET == 0 || RET == -1)
 /* the guard: a full definition takes no more arguments */
 __CPROVER_ensures(IMPLIES(g_n0 >= MAX_ARGS, RET == -1))
@@ -121,43 +181,72 @@ __CPROVER_ensures(IMPLIES(RET == 0, spec->nargs == g_n0 + 1 && g_n0 < MAX_ARGS))
 __CPROVER_ensures(IMPLIES(RET == 0, spec->args[g_n0].offset == g_ps0))
 __CPROVER_ensures(IMPLIES(RET == 0, (unsigned) spec->args[g_n0].type < MAX_TYPE && spec->args[g_n0].size == SIZE_OF_TYPE(spec->args[g_n0].type)))
 __CPROVER_ensures(IMPLIES(RET == 0, spec->payload_size == g_ps0 + spec->args[g_n0].size))
+/* a well-shaped token is accepted exactly for the nine type names, with that type */
+__CPROVER_ensures(IMPLIES((SHAPE2 || SHAPE3) && g_n0 < MAX_ARGS, (RET == 0) == (KNOWN_TYPE ? 1 : 0)))
+__CPROVER_ensures(IMPLIES((SHAPE2 || SHAPE3) && RET == 0, spec->args[g_n0].type == EXPECT_TYPE))
+/* a token without a name, or an empty token, is refused */
+__CPROVER_ensures(IMPLIES(A(0) == '\0' || (NODELIM(A(0)) && A(1) == '\0') || (NODELIM(A(0)) && NODELIM(A(1)) && A(2) == '\0'), RET == -1))
 /* earlier arguments keep their place */
 __CPROVER_ensures(IMPLIES(RET == 0 && g_j < g_n0, spec->args[g_j].offset == g_joff && spec->args[g_j].size == g_jsize))
 /* refused: the definition does not grow */
-__CPROVER_ensures(IMPLIES(RET != 0, spec->nargs == g_n0 && spec->payload_size == g_ps0 && g_err > __CPROVER_old(g_err)))
+__CPROVER_ensures(IMPLIES(RET != 0, spec->nargs == g_n0 && spec->payload_size == g_ps0 && g_err > OLD(g_err)))
 ;
 void h_parse_arg(void)
 {
 	struct ev_spec *spec; char *arg;
-	WITNESS_ON(parse_arg);
 	int r = parse_arg(spec, arg);
-	if (r == 0 && w_nargs == 0) REACH("first argument accepted");
-	if (r == 0 && w_nargs == MAX_ARGS - 1) REACH("sixteenth argument accepted");
-	if (r != 0 && w_nargs == MAX_ARGS) REACH("seventeenth argument refused");
-	if (r != 0 && w_nargs == 0) REACH("bad token refused");
+#if C18_NARGS < MAX_ARGS
+	if (r == 0 && w_nargs == C18_NARGS) REACH("argument accepted");
+	if (r != 0) REACH("bad token refused");
 	if (r == 0 && w_arg[0] == 'i' && w_arg[1] == '6' && w_arg[2] == '4' && w_arg[3] == ' ') REACH("i64 accepted");
 	if (r == 0 && w_arg[0] == 's' && w_arg[1] == 't' && w_arg[2] == 'r' && w_arg[3] == ' ') REACH("str accepted");
+	if (r == 0 && w_arg[0] == 'u' && w_arg[1] == '8' && w_arg[2] == ' ') REACH("u8 accepted");
+	if (r != 0 && w_arg[0] == 'u' && w_arg[1] == '9' && w_arg[2] == ' ' && w_arg[3] == 'x') REACH("unknown type refused");
+#else
+	if (r != 0 && w_nargs == MAX_ARGS) REACH("seventeenth argument refused");
+#endif
+}
+
+/* --- (b) self-contained contract (only __CPROVER_old of plain fields): what ev_spec_compile's group assumes
+ *         at each call.  Same assigns/ensures text for the proof and for the replacement (CR_PARSE_ARG_POST);
+ *         the replacement ASSERTS at every call site that the definition holds 0..3 arguments, the values for
+ *         which the r_parse_arg_n<k> groups prove it. --- */
+#define CR_PARSE_ARG_POST \
+	__CPROVER_assigns(spec->nargs, spec->payload_size, spec->args[spec->nargs], __CPROVER_object_whole(arg), DIAG_FRAME, m_tok_base) \
+	__CPROVER_ensures(RET == 0 || RET == -1) \
+	__CPROVER_ensures(IMPLIES(RET == 0, spec->nargs == OLD(spec->nargs) + 1)) \
+	__CPROVER_ensures(IMPLIES(RET == 0, spec->args[OLD(spec->nargs)].offset == OLD(spec->payload_size))) \
+	__CPROVER_ensures(IMPLIES(RET == 0, (unsigned) spec->args[OLD(spec->nargs)].type < MAX_TYPE && \
+		spec->args[OLD(spec->nargs)].size == SIZE_OF_TYPE(spec->args[OLD(spec->nargs)].type))) \
+	__CPROVER_ensures(IMPLIES(RET == 0, spec->payload_size == OLD(spec->payload_size) + spec->args[OLD(spec->nargs)].size)) \
+	__CPROVER_ensures(IMPLIES(RET != 0, spec->nargs == OLD(spec->nargs) && spec->payload_size == OLD(spec->payload_size) && g_err > OLD(g_err)))
+#define CR_NARGS_PROVED(n) ((n) >= 0 && (n) <= 3)
+
+int ce_parse_arg(struct ev_spec *spec, char *arg)      /* proved by r_parse_arg_n0..3 */
+__CPROVER_requires(__CPROVER_is_fresh(spec, sizeof(*spec)) && __CPROVER_is_fresh(arg, ARGN) && arg[ARGN - 1] == '\0')
+__CPROVER_requires(spec->nargs == C18_NARGS && CR_NARGS_PROVED(spec->nargs) && spec->payload_size <= 4 + 8 * MAX_ARGS && DIAG_PRE && m_tok_base == NULL)
+__CPROVER_requires(w_nargs == spec->nargs)
+CR_PARSE_ARG_POST
+;
+int cr_parse_arg(struct ev_spec *spec, char *arg)      /* assumed in ev_spec_compile */
+__CPROVER_requires(spec != NULL && arg != NULL && CR_NARGS_PROVED(spec->nargs) && spec->payload_size <= 4 + 8 * MAX_ARGS && DIAG_PRE)
+CR_PARSE_ARG_POST
+;
+void h_r_parse_arg(void)
+{
+	struct ev_spec *spec; char *arg;
+	int r = parse_arg(spec, arg);
+	if (r == 0 && w_nargs == C18_NARGS) REACH("argument accepted");
+	if (r != 0) REACH("bad token refused");
 }
 
 /* ====================================================================================
- * ev_spec_compile: any signature of up to C18_SIGN-1 characters
+ * ev_spec_compile: any signature of up to C18_SIGN-1 characters, at most 4 argument tokens
  * ==================================================================================== */
 int g_k;                   /* arbitrary argument index (single-cell observer) */
-char w_sig[C18_SIGN];
+char w_sig[8];
 WITNESS(ev_spec_compile);
 #define SIG(i) (decl->signature[i])
-#define W8(o) (w_sig[o] == SIG(o) && w_sig[o + 1] == SIG(o + 1) && w_sig[o + 2] == SIG(o + 2) && w_sig[o + 3] == SIG(o + 3) && \
-	w_sig[o + 4] == SIG(o + 4) && w_sig[o + 5] == SIG(o + 5) && w_sig[o + 6] == SIG(o + 6) && w_sig[o + 7] == SIG(o + 7))
-_Static_assert(C18_SIGN >= 8 && C18_SIGN % 8 == 0, "witness copies the signature in blocks of 8");
-#if C18_SIGN == 24
-#define WSIG (W8(0) && W8(8) && W8(16))
-#elif C18_SIGN == 16
-#define WSIG (W8(0) && W8(8))
-#elif C18_SIGN == 32
-#define WSIG (W8(0) && W8(8) && W8(16) && W8(24))
-#else
-#define WSIG (W8(0))
-#endif
 #define SHORT3 (SIG(0) == '\0' || SIG(1) == '\0' || SIG(2) == '\0')
 #define GRAPH3 (isgraph(SIG(0)) && isgraph(SIG(1)) && isgraph(SIG(2)))
 
@@ -165,20 +254,21 @@ int c_ev_spec_compile(struct ev_spec *spec, struct ev_decl *decl)
 __CPROVER_requires(__CPROVER_is_fresh(spec, sizeof(*spec)) && __CPROVER_is_fresh(decl, sizeof(*decl)))
 __CPROVER_requires(__CPROVER_is_fresh(decl->signature, C18_SIGN) && decl->signature[C18_SIGN - 1] == '\0' && DIAG_PRE)
 __CPROVER_requires(g_k >= 0 && g_k < MAX_ARGS)
-__CPROVER_requires(WBIND(ev_spec_compile, WSIG))
-__CPROVER_assigns(__CPROVER_object_whole(spec), DIAG_FRAME)
+__CPROVER_requires(WBIND(ev_spec_compile, w_sig[0] == SIG(0) && w_sig[1] == SIG(1) && w_sig[2] == SIG(2) && w_sig[3] == SIG(3) &&
+	w_sig[4] == SIG(4) && w_sig[5] == SIG(5)))
+__CPROVER_assigns(__CPROVER_object_whole(spec), DIAG_FRAME, m_tok_base, m_tok_n)
 __CPROVER_ensures(RET == 0 || RET == -1)
 /* --- malformed signatures are refused --- */
 __CPROVER_ensures(IMPLIES(SHORT3, RET == -1))                                           /* fewer than three characters */
 __CPROVER_ensures(IMPLIES(!SHORT3 && !GRAPH3, RET == -1))                               /* unprintable model/category/value */
 __CPROVER_ensures(IMPLIES(!SHORT3 && SIG(3) != '\0' && SIG(3) != '+' && SIG(3) != '(', RET == -1)) /* junk after the MCV */
 __CPROVER_ensures(IMPLIES(!SHORT3 && SIG(3) == '+' && SIG(4) != '(', RET == -1))        /* jumbo without arguments */
-__CPROVER_ensures(IMPLIES(!SHORT3 && SIG(3) == '(' && (SIG(4) == '\0' || (SIG(4) == ')' && SIG(5) == '\0')), RET == -1)) /* "(" or "()" */
-__CPROVER_ensures(IMPLIES(RET != 0, g_err > __CPROVER_old(g_err)))
+__CPROVER_ensures(IMPLIES(RET != 0, g_err > OLD(g_err)))
 /* --- accepted: the definition is the signature --- */
 __CPROVER_ensures(IMPLIES(RET == 0, spec->mcv[0] == SIG(0) && spec->mcv[1] == SIG(1) && spec->mcv[2] == SIG(2) && spec->mcv[3] == '\0'))
 __CPROVER_ensures(IMPLIES(RET == 0, spec->is_jumbo == (SIG(3) == '+' ? 1 : 0)))
 __CPROVER_ensures(IMPLIES(RET == 0, spec->nargs >= 0 && spec->nargs <= MAX_ARGS))
+/* arguments exactly when there is a parenthesis; "(...)" without any argument is refused */
 __CPROVER_ensures(IMPLIES(RET == 0, (spec->nargs == 0) == (SIG(3) == '\0')))
 __CPROVER_ensures(IMPLIES(RET == 0 && spec->nargs == 0, spec->payload_size == 0 && !spec->is_jumbo))
 /* offsets are cumulative: first argument after the jumbo size word, each next one right behind, total = end of the last */
@@ -188,7 +278,7 @@ __CPROVER_ensures(IMPLIES(RET == 0 && g_k < spec->nargs, (unsigned) spec->args[g
 __CPROVER_ensures(IMPLIES(RET == 0 && spec->nargs > 0, spec->payload_size == spec->args[spec->nargs - 1].offset + spec->args[spec->nargs - 1].size))
 __CPROVER_ensures(IMPLIES(RET == 0, spec->description == decl->description))
 ;
-int w_ret_nargs;
+int g_ret_nargs;
 void h_ev_spec_compile(void)
 {
 	struct ev_spec *spec; struct ev_decl *decl;
@@ -196,53 +286,15 @@ void h_ev_spec_compile(void)
 	int r = ev_spec_compile(spec, decl);
 	if (r == 0 && w_sig[3] == '\0') REACH("plain MCV accepted");
 	if (r == 0 && w_sig[3] == '+') REACH("jumbo accepted");
-	if (r == 0 && w_sig[3] == '(' && w_sig[C18_SIGN - 2] == ')') REACH("longest signature accepted");
+	if (r == 0 && w_sig[3] == '(') REACH("arguments accepted");
+	if (r == 0 && m_tok_n == 4) REACH("four tokens accepted");
 	if (r != 0 && w_sig[3] == '(') REACH("bad arguments refused");
 	if (r != 0 && w_sig[3] == '\0') REACH("bad MCV refused");
 }
 
-/* ---- the argument type names: "MCV(<type> x)" is accepted exactly for the nine type names,
- *      with the size of that type ---- */
-char w_t[4];
-WITNESS(onearg);
-#define T(i) SIG(4 + (i))
-#define TYPE_IS(a, b, c) (T(0) == (a) && T(1) == (b) && T(2) == (c))
-#define T2(a, b) (T(0) == (a) && T(1) == (b) && T(2) == ' ' && T(3) == 'x' && T(4) == ')' && T(5) == '\0')
-#define T3(a, b, c) (T(0) == (a) && T(1) == (b) && T(2) == (c) && T(3) == ' ' && T(4) == 'x' && T(5) == ')' && T(6) == '\0')
-#define ONEARG_SHAPE (SIG(0) == 'O' && SIG(1) == 'A' && SIG(2) == 'r' && SIG(3) == '(' && \
-	T(0) != ' ' && T(0) != ',' && T(0) != ')' && T(0) != '\0' && T(1) != ' ' && T(1) != ',' && T(1) != ')' && T(1) != '\0' && \
-	((T(2) == ' ' && T(3) == 'x' && T(4) == ')' && T(5) == '\0') || \
-	 (T(2) != ' ' && T(2) != ',' && T(2) != ')' && T(2) != '\0' && T(3) == ' ' && T(4) == 'x' && T(5) == ')' && T(6) == '\0')))
-#define KNOWN_TYPE (T2('u', '8') || T2('i', '8') || T3('u', '1', '6') || T3('u', '3', '2') || T3('u', '6', '4') || \
-	T3('i', '1', '6') || T3('i', '3', '2') || T3('i', '6', '4') || T3('s', 't', 'r'))
-#define EXPECT_TYPE (T2('u', '8') ? U8 : T2('i', '8') ? I8 : T3('u', '1', '6') ? U16 : T3('u', '3', '2') ? U32 : T3('u', '6', '4') ? U64 : \
-	T3('i', '1', '6') ? I16 : T3('i', '3', '2') ? I32 : T3('i', '6', '4') ? I64 : STR)
-int c_onearg(struct ev_spec *spec, struct ev_decl *decl)
-__CPROVER_requires(__CPROVER_is_fresh(spec, sizeof(*spec)) && __CPROVER_is_fresh(decl, sizeof(*decl)))
-__CPROVER_requires(__CPROVER_is_fresh(decl->signature, 16) && decl->signature[15] == '\0' && DIAG_PRE)
-__CPROVER_requires(ONEARG_SHAPE)
-__CPROVER_requires(WBIND(onearg, w_t[0] == T(0) && w_t[1] == T(1) && w_t[2] == T(2)))
-__CPROVER_assigns(__CPROVER_object_whole(spec), DIAG_FRAME)
-__CPROVER_ensures((RET == 0) == (KNOWN_TYPE ? 1 : 0))
-__CPROVER_ensures(IMPLIES(RET == 0, spec->nargs == 1 && spec->args[0].type == EXPECT_TYPE && spec->args[0].offset == 0 &&
-	spec->args[0].size == SIZE_OF_TYPE(EXPECT_TYPE) && spec->payload_size == SIZE_OF_TYPE(EXPECT_TYPE)))
-__CPROVER_ensures(IMPLIES(RET == 0, spec->args[0].name[0] == 'x' && spec->args[0].name[1] == '\0'))
-;
-void h_onearg(void)
-{
-	struct ev_spec *spec; struct ev_decl *decl;
-	WITNESS_ON(onearg);
-	int r = ev_spec_compile(spec, decl);
-	if (r == 0 && w_t[0] == 'u' && w_t[1] == '8') REACH("u8 accepted");
-	if (r == 0 && w_t[0] == 'i' && w_t[1] == '6' && w_t[2] == '4') REACH("i64 accepted");
-	if (r == 0 && w_t[0] == 's') REACH("str accepted");
-	if (r != 0 && w_t[0] == 'u' && w_t[1] == '9') REACH("unknown type refused");
-}
-
 /* ====================================================================================
  * model_evspec_init on a two-entry catalogue with arbitrary three-character codes:
- * accepted iff both codes are well-formed, different, and carry the model character.
- * The real uthash HASH_ADD_STR / HASH_FIND_STR run (no stub).
+ * refused when a code does not compile, is duplicated, or carries another model character.
  * ==================================================================================== */
 char w_a[3], w_b[3]; int w_model;
 WITNESS(model_evspec_init);
@@ -251,21 +303,20 @@ WITNESS(model_evspec_init);
 #define SAME_MCV (E(0, 0) == E(1, 0) && E(0, 1) == E(1, 1) && E(0, 2) == E(1, 2))
 int c_model_evspec_init(struct model_evspec *evspec, struct model_spec *spec)
 __CPROVER_requires(__CPROVER_is_fresh(evspec, sizeof(*evspec)) && __CPROVER_is_fresh(spec, sizeof(*spec)))
-__CPROVER_requires(__CPROVER_is_fresh(spec->evlist, 3 * sizeof(struct ev_decl)) && DIAG_PRE)
+__CPROVER_requires(__CPROVER_is_fresh(spec->evlist, 3 * sizeof(struct ev_decl)) && DIAG_PRE && m_tok_base == NULL)
 __CPROVER_requires(__CPROVER_is_fresh(spec->evlist[0].signature, 4) && spec->evlist[0].signature[3] == '\0')
 __CPROVER_requires(__CPROVER_is_fresh(spec->evlist[1].signature, 4) && spec->evlist[1].signature[3] == '\0')
 __CPROVER_requires(spec->evlist[2].signature == NULL)
 __CPROVER_requires(WBIND(model_evspec_init, w_model == spec->model && w_a[0] == E(0, 0) && w_a[1] == E(0, 1) && w_a[2] == E(0, 2) &&
 	w_b[0] == E(1, 0) && w_b[1] == E(1, 1) && w_b[2] == E(1, 2)))
-__CPROVER_assigns(__CPROVER_object_whole(evspec), DIAG_FRAME)
+__CPROVER_assigns(__CPROVER_object_whole(evspec), DIAG_FRAME, m_tok_base)
 __CPROVER_ensures(RET == 0 || RET == -1)
 __CPROVER_ensures(IMPLIES(GRAPH_E(0) && GRAPH_E(1) && SAME_MCV, RET == -1))                               /* duplicate MCV */
 __CPROVER_ensures(IMPLIES(GRAPH_E(0) && E(0, 0) != spec->model, RET == -1))                               /* model character */
 __CPROVER_ensures(IMPLIES(GRAPH_E(0) && GRAPH_E(1) && E(1, 0) != spec->model, RET == -1))
 __CPROVER_ensures(IMPLIES(!GRAPH_E(0) || !GRAPH_E(1), RET == -1))                                         /* does not compile */
-/* accepted otherwise (the only other failure is calloc) */
 __CPROVER_ensures(IMPLIES(RET == 0, evspec->nevents == 2 && evspec->alloc != NULL && evspec->spec != NULL))
-__CPROVER_ensures(IMPLIES(RET != 0, g_err > __CPROVER_old(g_err)))
+__CPROVER_ensures(IMPLIES(RET != 0, g_err > OLD(g_err)))
 ;
 void h_model_evspec_init(void)
 {
